@@ -537,9 +537,9 @@ func generate(a *hx.Args) {
 		g.exhaustive(4, 6)
 	} else {
 		g.exhaustive(2, 1)
-		g.exhaustive(3, 4)
+		g.exhaustive(3, 12)
 	}
-	g.randomShort(a.N(300))
+	g.randomShort(a.N(120))
 	g.adversarial()
 	aliasCases()
 	for i := 0; i < a.N(40); i++ {
